@@ -539,6 +539,52 @@ def definition_pairs(ctx, i):
     ctx.case({"definition-pairs": len(DEFINITION_PAIRS)}, True)
 
 
+def derive_after_cached_run(ctx, i):
+    """A cacheable node is RUN on a cache and only then renamed (outputs / inputs / name), or its renamed twin is built
+    from the same instance: the derived node is another node for the cache - it must neither be served the parent's
+    entry under the old output names nor lose its own output."""
+    from hypergraph import FunctionNode, Graph, SyncRunner
+
+    rng = ctx.rng
+
+    def f(x, y=1):
+        return ("f", x, y)
+
+    def use(o2):
+        return ("use", o2)
+
+    base = FunctionNode(f, name="n", output_name="o", cache=True)
+    backend, tmp = _with_backend(rng)
+    cached, plain = SyncRunner(cache=backend), SyncRunner()
+    derivs = [
+        ("with_outputs", lambda b: Graph([b.with_outputs(o="o2"), FunctionNode(use, name="use", output_name="u")], name="gd2")),
+        ("with_inputs", lambda b: Graph([b.with_inputs(x="x2")], name="gd3")),
+        ("with_name", lambda b: Graph([b.with_name("n2")], name="gd4")),
+        ("with_outputs-swap", None),
+    ]
+    rng.shuffle(derivs)
+    case = {"program": "node run on a cache, then derived", "backend": type(backend).__name__, "order": [d[0] for d in derivs]}
+    try:
+        g0 = Graph([base], name="gd1")
+        cached.run(g0, {"x": "run:x"})
+        for label, mk in derivs:
+            if mk is None:
+                continue
+            g = mk(base)
+            inputs = {"x2": "run:x"} if label == "with_inputs" else {"x": "run:x"}
+            for rep in range(2):
+                rc = cached.run(g, dict(inputs))
+                ru = plain.run(g, dict(inputs))
+                ctx.obs["cached_runs_compared"] += 1
+                ctx.obs["derive_after_run_checks"] += 1
+                if (rc.status.value, rc.values) != (ru.status.value, ru.values):
+                    ctx.violation("C09:cached-differs-from-uncached:derived-after-run", f"{label} applied to a node that had already run on this cache (run {rep}): cached {rc.values} vs uncached {ru.values}", {**case, "derivation": label})
+                    break
+    finally:
+        _drop_backend(backend, tmp)
+    ctx.case({"derive-after-run": True, "b": type(backend).__name__}, True)
+
+
 def lru_recency(ctx, i):
     """Size-limited in-memory backend, directed history: with room for m entries, an entry that was just READ is the
     most recently used one, so the next insertion evicts some other entry and the read one is still served (documented
@@ -776,6 +822,18 @@ def disk_faults(ctx, dcache, spy, built, spec, pool, cacheable, case):
                         break
             if Evil.fired:
                 ctx.obs["evil_payload_executed"] += 1
+            if exc is None and not hit and fault != "torn-fresh":
+                # the miss makes the node run again and store its result again: from then on the entry is whole (a
+                # later lookup is a hit with that value) - a damaged entry must not poison its key
+                try:
+                    dcache.set(probe_key, stored_value)
+                    hit2, val2 = dcache.get(probe_key)
+                    exc2 = None
+                except BaseException as e:  # noqa: BLE001
+                    hit2, val2, exc2 = None, None, e
+                ctx.obs["restore_after_fault_checked"] += 1
+                if exc2 is not None or not hit2 or val2 != stored_value:
+                    ctx.violation("C09:entry-not-restored-after-fault:" + fault, f"entry with {fault}: after the miss the value was stored again, yet the next lookup gave hit={hit2} value={core.short(val2)} exc={exc2!r}: the function would run on every later run although nothing was evicted", c2)
             # restore the genuine entry for the next fault class
             dc.set(key, orig_payload)
             dc.set(key + suffix, orig_sig)
@@ -813,6 +871,8 @@ def run(ctx):
             lru_recency(ctx, i)
         elif i % 50 == 7:
             definition_pairs(ctx, i)
+        elif i % 25 == 3:
+            derive_after_cached_run(ctx, i)
         elif i % 20 == 12:
             permuted_wiring_identity(ctx, i)
         else:
